@@ -191,7 +191,7 @@ Inductive response :=
 | R206 (file : str) (seek length : Z) (cr : Z * Z * Z)
 | R416 (file : str) (size : Z).
 
-Record route := { r_prefix : str; r_dir : str; r_fallback : option str }.
+Record route := { r_prefix : str; r_dir : str; r_fallback : option str; r_downloadable : bool }.
 
 Definition serve (rt : route) (files : fs) (is_options : bool) (path : str)
            (ims : option Z) (rng : range_hdr) : response :=
@@ -226,3 +226,46 @@ Definition serve (rt : route) (files : fs) (is_options : bool) (path : str)
           end
       end
     end.
+
+(* ------------------------------------------------------------------ headers of a served file *)
+Open Scope N_scope.
+
+(* os.path.basename(p): what follows the last '/' *)
+Definition basename (p : str) : str := last (split_chr SLASH p) [].
+
+(* os.path.splitext(p)[1]: from the last '.' of the base name, unless only dots precede it
+   (leading dots do not start an extension: ".bashrc", "..a") *)
+Definition DOT : N := 46.
+Definition splitext_ext (p : str) : str :=
+  match rev (split_chr DOT (basename p)) with
+  | e :: ((_ :: _) as front) => if existsb nonempty front then DOT :: e else []
+  | _ => []
+  end.
+
+Definition s_octet_stream : str :=   (* "application/octet-stream" *)
+  [97; 112; 112; 108; 105; 99; 97; 116; 105; 111; 110; 47; 111; 99; 116; 101; 116; 45; 115; 116;
+   114; 101; 97; 109].
+
+(* resp.options.static_media_types.get(suffix, 'application/octet-stream'): exact-match lookup *)
+Fixpoint types_get (types : list (str * str)) (suffix : str) : option str :=
+  match types with
+  | [] => None
+  | (k, v) :: tl => if str_eqb suffix k then Some v else types_get tl suffix
+  end.
+
+Definition content_type_of (types : list (str * str)) (file : str) : str :=
+  match types_get types (splitext_ext file) with Some t => t | None => s_octet_stream end.
+
+(* resp.downloadable_as = os.path.basename(file_path) when the route is downloadable; the
+   Content-Disposition text itself is produced by falcon.response_helpers (property C15) *)
+Definition disposition_of (rt : route) (file : str) : option str :=
+  if r_downloadable rt then Some (basename file) else None.
+
+(* the headers set for a 200/206 response: they are derived from the file that is actually
+   served, i.e. from the fallback's name when the fallback is served *)
+Definition served_headers (rt : route) (types : list (str * str)) (r : response)
+  : option (str * option str) :=
+  match r with
+  | R200 f _ | R206 f _ _ _ => Some (content_type_of types f, disposition_of rt f)
+  | _ => None
+  end.
